@@ -1,5 +1,6 @@
 """C08 — results do not depend on which evaluation path the compiler chose."""
 import importlib.util
+import math
 import os
 import struct
 import vlib
@@ -115,10 +116,266 @@ def canon(s):
         return "I %d" % int(s)
     except ValueError:
         pass
+    if s == "ZDE":
+        return "err 1"
+    s = {"Std::Float::INF": "inf", "Std::Float::NEG_INF": "-inf", "Std::Float::NAN": "nan"}.get(s, s)
     try:
-        return "F %d" % fbits(float(s.replace("Inf", "inf").replace("NaN", "nan")))
+        x = float(s.replace("Inf", "inf").replace("NaN", "nan"))
     except ValueError:
         return "? " + s
+    return "F nan" if x != x else "F %d" % fbits(x)
+
+
+def canon_model(s):
+    """the model prints NaN with whatever payload OCaml produced: every NaN is one value"""
+    if s.startswith("F "):
+        b = int(s[2:])
+        if (b >> 52) & 0x7ff == 0x7ff and b & ((1 << 52) - 1):
+            return "F nan"
+    return s
+
+
+# ---------------------------------------------------------------- c08.grid: exhaustive corner grid
+GRIDV = ("lit", "typed", "union", "call", "ucall")
+SHIFT_EXTRA = [s * n for n in (31, 32, 62, 63, 64, 65, 66) for s in (1, -1)]
+POW_EXTRA = [3, 31, 32, 62, 63, 64, 65]
+
+
+def int_corners(bases, ds):
+    """0, +-1, +-2 and +-(2^k + d): the values around which the small/big representation, the
+    int32/int64 width and the float53 precision change"""
+    out = [0, 1, -1, 2, -2]
+    for k in bases:
+        for d in ds:
+            for z in (2 ** k + d, -(2 ** k + d)):
+                if z not in out:
+                    out.append(z)
+    return out
+
+
+def float_corners(full):
+    pos = [0.0, 1.5, 2.0 ** 53 - 1, 2.0 ** 53, 2.0 ** 53 + 2, 2.0 ** 63]
+    if full:
+        pos += [0.5, 2.0 ** 31, 2.0 ** 63 + 2048, 2.0 ** 64]
+    neg = [-x for x in pos] if full else [-0.0, -1.5, -(2.0 ** 53), -(2.0 ** 63)]
+    return pos + neg
+
+
+def isneg(x):
+    return math.copysign(1.0, x) < 0 if isinstance(x, float) else x < 0
+
+
+def glit(k, v):
+    t = str(v) if k == "I" else format(v, "f")
+    return "(%s)" % t if isneg(v) else t
+
+
+def grid_admissible(op, lk, a, rk, b):
+    """the exact result must be small enough to compute: Int ** Int needs |a| <= 1 or b <= 66; an
+    effective left shift of a non-zero Int by 200 < n < 2^63 bits is left out (amounts that do not
+    fit a SmallInt are fine: the implementation answers 0 / sign fill without shifting)"""
+    if lk == "I" and rk == "I":
+        if op == "pow":
+            return abs(a) <= 1 or b <= 66
+        if op in ("shl", "shr"):
+            n = b if op == "shl" else -b
+            return a == 0 or not (200 < n < 2 ** 63)
+    return True
+
+
+def grid_cases(full):
+    """every operator on every ordered pair of corner operands (Int x Int: 17 operators; pairs with
+    a Float: the 11 arithmetic/comparison operators)"""
+    ints = int_corners((31, 32, 63, 64), (-2, -1, 0, 1, 2))
+    mixed_ints = int_corners((53, 63, 64), (-2, -1, 0, 1, 2) if full else (-1, 0, 1))
+    floats = float_corners(full)
+    cases = []
+    for op in ARITH + CMP + INTONLY:
+        rights = ints + (SHIFT_EXTRA if op in ("shl", "shr") else POW_EXTRA if op == "pow" else [])
+        for a in ints:
+            for b in rights:
+                if grid_admissible(op, "I", a, "I", b):
+                    cases.append((op, "I", a, "I", b))
+    for op in ARITH + CMP:
+        for a in mixed_ints:
+            for f in floats:
+                cases.append((op, "I", a, "F", f))
+                cases.append((op, "F", f, "I", a))
+        for f in floats:
+            for g in floats:
+                cases.append((op, "F", f, "F", g))
+    return cases
+
+
+class GridLocals:
+    """one declaration per (operand, static type) used in a program; -0.0 is computed at run time
+    (a literal -0.0 is emitted as FLOAT_0, see known finding negzero-result)"""
+
+    def __init__(self):
+        self.names, self.decls = {}, []
+
+    def get(self, kind, v, ty):
+        key = (kind, ty, repr(v))
+        if key not in self.names:
+            n = "%s%d" % ({"Int": "t", "Float": "f", "Int | Float": "u", "Int | Int64": "s"}[ty], len(self.names))
+            if kind == "F" and v == 0 and isneg(v):
+                if "zf" not in self.names:
+                    self.names["zf"] = "zf"
+                    self.decls.append("var zf: Float = 0.0")
+                init = "zf * (-1.0)"
+            else:
+                init = glit(kind, v)
+            self.decls.append("var %s: %s = %s" % (n, ty, init))
+            self.names[key] = n
+        return self.names[key]
+
+
+def grid_stmt(k, v, case, loc):
+    """one statement printing exactly one line '<k> <variant> <inspect | ZDE>', or None when the
+    variant does not exist for the case"""
+    op, lk, a, rk, b = case
+    sym = OPSYM[op]
+    ty = {"I": "Int", "F": "Float"}
+    if v == "lit":
+        expr = "(%s %s %s)" % (glit(lk, a), sym, glit(rk, b))
+    elif v in ("typed", "call"):
+        if v == "typed" and op == "eq" and lk == "F":
+            return None     # EQUAL_INT on a Float: SIGSEGV (known finding eq:F/*:variant-crash:typed, corpus witness)
+        x, y = loc.get(lk, a, ty[lk]), loc.get(rk, b, ty[rk])
+        expr = "(%s %s %s)" % (x, sym, y) if v == "typed" else "%s.%s(%s)" % (x, sym, y)
+    else:
+        if op in ("and", "or", "xor", "andnot"):
+            return None     # no union of builtin types admits these operators
+        if op in ("shl", "shr"):
+            x, y = loc.get(lk, a, "Int | Int64"), loc.get(rk, b, "Int")
+        else:
+            x, y = loc.get(lk, a, "Int | Float"), loc.get(rk, b, "Int | Float")
+        expr = "(%s %s %s)" % (x, sym, y) if v == "union" else "%s.%s(%s)" % (x, sym, y)
+    line = 'println("%d %s " + %s.inspect)' % (k, v, expr)
+    if op in ("div", "mod") and rk == "I" and b == 0:
+        line = 'do\n  %s\ncatch ZeroDivisionError() as e\n  println("%d %s ZDE")\nend' % (line, k, v)
+    return line
+
+
+def run_resumable(elk, batches, wd, variants, timeout, max_rounds=6):
+    """batches: [(name, [(key, stmt)], locals)]. Runs every batch as one program; when a program
+    dies, the first statement without an output line is blamed (CRASH:...) and the rest of the
+    batch is run again. Returns (got, programs_run, not_isolated, log)."""
+    got, nprog, lost, log = {}, 0, 0, []
+    pending = list(batches)
+    for rnd in range(max_rounds + 1):
+        if not pending:
+            break
+        progs = [(name, "\n".join(decls) + "\n" + "\n".join(st for _, st in stmts) + "\n") for name, stmts, decls in pending]
+        res = vlib.run_programs(elk, progs, wd, timeout=timeout)
+        nprog += len(progs)
+        nxt = []
+        for name, stmts, decls in pending:
+            rc_, out, cls = res[name]
+            seen = set()
+            for l in out.splitlines():
+                f = l.split(" ")
+                if len(f) == 3 and f[0].isdigit() and f[1] in variants:
+                    got[(int(f[0]), f[1])] = f[2]
+                    seen.add((int(f[0]), f[1]))
+            if cls == "ok":
+                continue
+            i = next((i for i, (key, _) in enumerate(stmts) if key not in seen), None)
+            if i is None:
+                continue
+            msg = next((x for x in out.splitlines() if "panic" in x or "rror" in x or "FAIL" in x or "signal" in x), out[-160:])
+            if cls == "timeout" or rnd == max_rounds or (not seen and rnd > 0):
+                lost += len(stmts) - i
+                log.append("%s: %s after %d statements: %s" % (name, cls, i, msg.strip()[:300]))
+                continue
+            got[stmts[i][0]] = "CRASH:" + cls + ":" + msg.strip()[:120].replace(" ", "_")
+            if i + 1 < len(stmts):
+                nxt.append(("%sr%d" % (name.split("r")[0], rnd + 1), stmts[i + 1:], decls))
+        pending = nxt
+    return got, nprog, lost, log
+
+
+def grid_key(case, outs, vals, model):
+    """canonical class of a failing grid case, or None"""
+    op, lk, a, rk, b = case
+    cls = "eq:%s/%s" % (lk, rk) if op == "eq" else "%s:%s/%s" % (op, kclass(lk, a), kclass(rk, b))
+    crashed = sorted(v for v, o in outs.items() if o.startswith("CRASH:"))
+    if crashed:
+        return cls + ":variant-crash:" + "+".join(crashed), "variants %s crash (%s)" % (crashed, outs[crashed[0]])
+    if len(set(vals.values())) > 1:
+        ref = vals.get("union", vals.get("typed", vals.get("call")))
+        odd = sorted(v for v, o in vals.items() if o != ref)
+        if odd == ["lit"] and ref == "F %d" % fbits(-0.0) and vals["lit"] == "F 0":
+            return ("negzero-result:variants-differ:lit",
+                    "the constant-folded form prints 0.0, every run-time form prints -0.0: %s" % outs)
+        return cls + ":variants-differ:" + "+".join(odd), "outputs differ between variants: %s" % outs
+    if not (op == "pow" and "F" in (lk, rk)) and set(vals.values()) != {model}:
+        return cls + ":model-differs", "all variants print %s, model says %s" % (sorted(set(outs.values())), model)
+    return None
+
+
+def grid_stream(ctx, m, elk):
+    stream = "c08.grid"
+    cases = grid_cases(not ctx.quick())
+    ids = [str(i) for i in range(len(cases))]
+    inputs = {str(i): "%s %s %s %s %s" % (c[0], c[1], c[2] if c[1] == "I" else fbits(c[2]), c[3], c[4] if c[3] == "I" else fbits(c[4]))
+              for i, c in enumerate(cases)}
+    rc, model, mout = vlib.run_model(m, ids, inputs)
+    if rc != 0 or len(model) != len(ids):
+        ctx.broke("c08.grid: model driver failed", mout[-2000:])
+        return
+    bad_model = [i for i in ids if model[i].startswith(("paths-disagree", "model-failure", "bad-input"))]
+    if bad_model:
+        ctx.broke("c08.grid: the extracted paths disagree with each other (contradicts the theorems)",
+                  "\n".join("%s -> %s" % (inputs[i], model[i]) for i in bad_model[:20]))
+    CH = 1000
+    batches = []
+    for p0 in range(0, len(cases), CH):
+        loc, stmts = GridLocals(), []
+        for k in range(p0, min(p0 + CH, len(cases))):
+            for v in GRIDV:
+                st = grid_stmt(k, v, cases[k], loc)
+                if st:
+                    stmts.append(((k, v), st))
+        batches.append(("g%d" % p0, stmts, loc.decls))
+    got, nprog, lost, log = run_resumable(elk, batches, os.path.join(ctx.workdir, "grid"), GRIDV, timeout=900)
+    if lost:
+        ctx.broke("c08.grid: %d statements could not be run (program died or timed out and was not isolated)" % lost,
+                  "\n".join(log[:20]))
+    evals, dist, mism, samples, ndist = 0, {}, 0, [], 0
+    for i, c in enumerate(cases):
+        op, lk, a, rk, b = c
+        outs = {v: got[(i, v)] for v in GRIDV if (i, v) in got}
+        if not outs:
+            continue
+        evals += len(outs)
+        ndist += 1
+        dk = "%s/%s%s" % (op, lk, rk)
+        dist[dk] = dist.get(dk, 0) + 1
+        if len(samples) < 3 and i % 997 == 5:
+            samples.append({"input": inputs[str(i)], "observed": outs})
+        vals = {v: canon(o) for v, o in outs.items() if not o.startswith("CRASH:")}
+        bad = grid_key(c, outs, vals, canon_model(model[str(i)]))
+        if bad:
+            mism += 1
+            if mism <= 300:
+                ctx.fail(bad[0], "%s %s %s: %s" % (glit(lk, a), OPSYM[op], glit(rk, b), bad[1]), stream=stream, case=inputs[str(i)],
+                         impl=outs, model=model[str(i)],
+                         oracle="every form (literals=folded, typed locals=typed opcode, union-typed locals=generic opcode, "
+                                "a.op(b) on typed operands=statically bound overload, a.op(b) on union-typed operands=run-time "
+                                "dispatch) must print the same result or raise the same error, equal to the model's")
+    ctx.stream(stream, evals, ndist,
+               "EXHAUSTIVE grid, no sampling: 17 operators x every ordered pair of Int corners (0, +-1, +-2, +-(2^31|2^32|2^63|2^64 + "
+               "-2..2); shifts also by +-31..66, ** also by 3..65) and the 11 arithmetic/comparison operators x Int corners (also "
+               "around 2^53) x Float corners (+-0.0, +-1.5, 2^53-1, 2^53, 2^53+2, 2^63, ...) in both orders and Float x Float; each "
+               "case in up to 5 forms: literals, Int/Float locals, union-typed locals, a.op(b) on typed locals (statically bound "
+               "native overload op@1 -> value.XInts), a.op(b) on union-typed locals; %d cases per program; left out: Int ** Int "
+               "with |a| > 1 and b > 66, left shifts of a non-zero Int by 200 < n < 2^63 bits (result does not fit in memory), "
+               "typed `==` with a Float on the left (known crash, corpus witness), union forms of & | ^ &~ (no admissible union). "
+               "evaluations = form outputs compared; oracle 1: all forms equal; oracle 2: equal to the extracted model "
+               "(except Float **)" % CH,
+               samples, dist, mismatches=mism, programs=nprog)
+
 
 
 def run(ctx):
@@ -138,6 +395,7 @@ def run(ctx):
     ctx.run_proof_gate()
     m = vlib.build_model_exact("C08")
     elk = vlib.build_elk()
+    grid_stream(ctx, m, elk)
     stream = "c08.variants"
     r = ctx.rng(stream)
     cases = []
